@@ -1030,14 +1030,18 @@ class Call:
 
 
 def strip_generics(c):
+    """drop generic argument lists `::<...>` from a path; `::<impl at file:line>` and inherent-impl segments such as
+    `core::str::<impl str>::trim` are path segments (followed by `::name`) and stay, `f::<impl Read + Write>` is an argument list"""
     out = []; i = 0; n = len(c)
     while i < n:
-        if c.startswith('::<', i) and not c.startswith('::<impl ', i):
+        if c.startswith('::<', i):
             j = i + 3; dd = 1
             while dd > 0 and j < n:
                 if c[j] == '<': dd += 1
                 elif c[j] == '>' and c[j - 1] not in '-=': dd -= 1
                 j += 1
+            if c.startswith('::<impl ', i) and c.startswith('::', j) and j + 2 < n and (c[j + 2].isalnum() or c[j + 2] in '_<{'):
+                out.append(c[i:j]); i = j; continue          # path segment: keep
             i = j; continue
         out.append(c[i]); i += 1
     return ''.join(out)
